@@ -349,3 +349,20 @@ theorem C16_src_walk_guards :
     ∧ collectRefsHasVisitedMap = true ∧ assertRefsHasVisitedMap = true := by decide
 
 end J5V.Props.C16
+
+namespace J5V.Props.C16
+open J5V.Generated.Pipe
+
+/-- the producer's check of enum default filters is in the source (`buildField`, enum arm: the
+error of `enumRef.mapValues(filtering.DefaultFilters)` is returned), `mapValues` spells a value
+the way `addPrefix` / `compileDefaultsOk` do, and the consumer (`buildEnum`, `OptionByName`,
+`buildListRequest`) reads prefix and options the way `readEnum` / `defaultFiltersOk` do -/
+theorem C16_src_enum_defaults :
+    compileChecksEnumDefaults = true
+    ∧ mapValuesFacts = ["strings.HasPrefix in er.Prefix", "assign in = er.Prefix + in", "lookup er.ValMap in"]
+    ∧ optionByNameFacts = ["strings.TrimPrefix name s.NamePrefix", "eq opt.name shortName"]
+    ∧ buildEnumFacts = ["strings.HasSuffix unspecifiedVal suffix", "strings.TrimSuffix unspecifiedVal suffix",
+        "strings.TrimPrefix values[…].name trimPrefix"]
+    ∧ listEnumLookupFacts = ["enumSchema.OptionByName val", "eq foundVal nil"] := by decide
+
+end J5V.Props.C16
